@@ -2,7 +2,7 @@
    and satisfiability examples.  Instance: contents are identified by their digest (bytes := oid,
    H := identity), [1] is the empty content, no directory listings. *)
 From Coq Require Import NArith List Bool.
-From DvcData Require Import Base.Val Model.AddSteps Proofs.AddStepsProofs.
+From DvcData Require Import Base.Val Model.AddSteps Proofs.AddStepsProofs Proofs.AddStepsProgs Proofs.AddStepsRecover.
 Import ListNotations.
 Open Scope N_scope.
 
@@ -101,3 +101,105 @@ Proof.
     apply list_N_eqb_spec in E. subst d. vm_compute in Hd. discriminate.
   - intros p Hp. simpl in Hp. discriminate.
 Qed.
+
+(* ---- the refutation, packaged: every hypothesis of the restricted theorem holds except
+   "no probe pending at the crash point" ---- *)
+Lemma x_files_ok : files_ok oid xH x_files.
+Proof. intros it [<-|[]]. split; vm_compute; reflexivity. Qed.
+Lemma x_all_ok : all_ok oid xH w_empty.
+Proof. intros o f Ho. unfold obj in Ho. simpl in Ho. discriminate. Qed.
+Lemma x_pending : w_pend (run oid xE (firstn 2 (x_prog w_empty)) w_empty) = Some [2].
+Proof. vm_compute. reflexivity. Qed.
+
+Lemma recover_check_exists_refuted :
+  exists (files : list (oid * oid)) (w0 : world oid) (n : nat),
+    inv oid xH (xK []) w0 /\ w_pend w0 = None /\ all_ok oid xH w0 /\ files_ok oid xH files /\
+    let p := save_prog oid xE (fun b => b) 0 files [] in
+    let wc := crash oid (run oid xE (firstn n (p w0)) w0) in
+    crash_inv oid xH (xK []) wc /\
+    ~ crash_inv oid xH (xK []) (run oid xE (p wc) wc) /\
+    ~ store_eq oid (run oid xE (p wc) wc) (run oid xE (p w0) w0).
+Proof.
+  exists x_files, w_empty, 2%nat.
+  split; [apply inv_w_empty|]. split; [reflexivity|]. split; [apply x_all_ok|]. split; [apply x_files_ok|].
+  split; [|split].
+  - apply crash_inv_b_sound. exact x_crashed_inv.
+  - exact x_rerun_not_crash_inv.
+  - exact x_rerun_not_store_eq.
+Qed.
+
+(* satisfiability of the hypotheses of the scenario theorems by a non-trivial instance *)
+Definition y_files : list (oid * oid) := [([2], [2]); ([3], [3])].
+Lemma y_files_ok : files_ok oid xH y_files.
+Proof. intros it [<-|[<-|[]]]; split; vm_compute; reflexivity. Qed.
+Lemma y_dir_ok : dir_ok oid xH (xK y_kids) y_files y_dir.
+Proof.
+  split; [vm_compute; reflexivity|]. split; [vm_compute; reflexivity|].
+  intros k Hk. vm_compute in Hk. destruct Hk as [<-|[<-|[]]]; simpl; auto.
+Qed.
+Lemma y_requested : requested oid y_files y_dir [[3]; [4; 46; 100; 105; 114]; [2]].
+Proof.
+  intros o. simpl. split.
+  - intros [<-|[<-|[<-|[]]]]; auto.
+  - intros [->|[<-|[<-|[]]]]; auto.
+Qed.
+Lemma y_kids_empty : xK y_kids xE = [].
+Proof. vm_compute. reflexivity. Qed.
+(* the collision-freeness hypothesis of the recover theorems is satisfiable: contents = numbers,
+   digest of n = the one-character name [n] *)
+Lemma z_inj : forall b b' : N, base ((fun n : N => [n]) b) = base ((fun n : N => [n]) b') -> b = b'.
+Proof.
+  intros b b'. simpl. destruct (N.eqb b 46) eqn:E1, (N.eqb b' 46) eqn:E2; intros Hb.
+  - apply N.eqb_eq in E1, E2. congruence.
+  - discriminate.
+  - discriminate.
+  - congruence.
+Qed.
+
+(* ---- one instance satisfying ALL hypotheses of the recover theorems at once (contents = numbers,
+   digest of n = [n]; 4 is a listing of [2] and [3]; the store already holds [3] unprotected) ---- *)
+Definition zH (n : N) : oid := [n].
+Definition zK (n : N) : list oid := if N.eqb n 4 then [[2]; [3]] else [].
+Definition z_files : list (oid * N) := [([2], 2); ([3], 3)].
+Definition z_dir : oid * N := ([4; 46; 100; 105; 114], 4).
+Definition z_w0 : world N := mkW [([3], mkF 3 false)] [] [] None.
+Definition z_qs : list oid := [[3]; [4; 46; 100; 105; 114]; [2]].
+Lemma z_inv : inv N zH zK z_w0.
+Proof.
+  split; [|split; [|split]].
+  - intros o f Ho Hp. unfold obj in Ho. simpl in Ho.
+    destruct (list_N_eqb o [3]); [injection Ho as <-; discriminate | discriminate].
+  - intros o f v Ho Hr. unfold row in Hr. simpl in Hr. discriminate.
+  - intros d f Ho Hd. unfold obj in Ho. simpl in Ho.
+    destruct (list_N_eqb d [3]) eqn:E; [|discriminate].
+    apply list_N_eqb_spec in E. subst d. vm_compute in Hd. discriminate.
+  - intros p Hp. simpl in Hp. discriminate.
+Qed.
+Lemma z_files_ok : files_ok N zH z_files.
+Proof. intros it [<-|[<-|[]]]; split; vm_compute; reflexivity. Qed.
+Lemma z_dir_ok : dir_ok N zH zK z_files z_dir.
+Proof.
+  split; [vm_compute; reflexivity|]. split; [vm_compute; reflexivity|].
+  intros k Hk. vm_compute in Hk. destruct Hk as [<-|[<-|[]]]; simpl; auto.
+Qed.
+Lemma z_requested : requested N z_files z_dir z_qs.
+Proof.
+  intros o. unfold z_qs. simpl. split.
+  - intros [<-|[<-|[<-|[]]]]; auto.
+  - intros [->|[<-|[<-|[]]]]; auto.
+Qed.
+(* the recover theorem applied: killed after 10 steps (a temp copy half written), re-run *)
+Example z_recover_instance :
+  let p0 := transfer_prog N zH 1 (fun n => n + 100) true 0 z_qs z_files z_dir z_w0 in
+  let wc := crash N (run N 1 (firstn 10 p0) z_w0) in
+  let p1 := transfer_prog N zH 1 (fun n => n + 100) true 5 z_qs z_files z_dir wc in
+  store_eq N (run N 1 p1 wc) (run N 1 p0 z_w0).
+Proof.
+  intros p0 wc p1.
+  exact (proj1 (proj2 (proj2 (transfer_recover N zH zK 1 (fun n => n + 100) eq_refl z_inj
+          0 5 z_qs z_qs z_files z_dir z_w0 10 z_inv eq_refl z_files_ok z_dir_ok z_requested z_requested)))).
+Qed.
+Example z_crashed_nontrivial :
+  let p0 := transfer_prog N zH 1 (fun n => n + 100) true 0 z_qs z_files z_dir z_w0 in
+  w_tmps (run N 1 (firstn 10 p0) z_w0) = [(0, 102)] /\ length p0 = 21%nat.
+Proof. vm_compute. split; reflexivity. Qed.
